@@ -33,7 +33,7 @@ except Exception as exc:  # the tie is broken: keep the committed layout, search
     extract_err = '%s: %s' % (type(exc).__name__, exc)
 chk.lean(['VermouthProps.C16', 'VermouthProps.C16Tables', 'VermouthProps.C16File', 'VermouthProps.C16Gro',
           'VermouthProps.C16Conect', 'VermouthProps.C16Format', 'VermouthProps.C16Total', 'VermouthProps.C16Merge',
-          'VermouthProps.C16Model', 'VermouthProps.C16Full', 'VermouthProps.C16GroX'],
+          'VermouthProps.C16Model', 'VermouthProps.C16Conserv', 'VermouthProps.C16Full', 'VermouthProps.C16GroX'],
          'driver_c16', generated=gen)
 chk.extra['phase_s'] = {'lean_done': round(chk.elapsed(), 1)}
 if extract_err:
@@ -662,6 +662,7 @@ def process(job):
     counts.clear()
     beyond.clear()
     err = None
+    t_start = time.time()
     cnt('kind_' + case['kind'])
     cnt('n_molecules=%d' % min(len(case['mols']), 5))
     try:
@@ -682,6 +683,7 @@ def process(job):
             run_gro(cid, case)
     except Exception:
         err = ('harness:' + cid, tail(traceback.format_exc()))
+    cnt('worker_ms_' + case['kind'], int((time.time() - t_start) * 1000))
     return list(records), dict(counts), set(beyond), err, chk.worker_lines()
 
 
